@@ -19,6 +19,8 @@ def main():
         print("no such check:", a.pid)
         return 2
     try:
+        if a.replay:
+            return replay(a.pid, a.replay)
         return fn(tier, seed, a.replay)
     except P.Inconclusive as e:
         print("INCONCLUSIVE property=%s: %s" % (a.pid, e))
@@ -27,6 +29,58 @@ def main():
         traceback.print_exc()
         print("INCONCLUSIVE property=%s: internal error" % a.pid)
         return 2
+
+
+def replay(pid, path):
+    """re-run exactly the case of a replay file against the current working tree"""
+    import json, subprocess, tempfile
+    from peg import Gram, dump_groups
+    from rt import Run
+    rec = json.load(open(path))
+    if "group" in rec and "divergence" in rec:          # a T1 case: grammar group, flags, input, options
+        gc = rec["group"]
+        g = Gram(1)
+        g.nodes, g.rules, g.lr = gc["nodes"], gc["rules"], gc["lr"]
+        g.idents = gc.get("idents")
+        old = "G%d_" % gc["gi"]
+        g.disp = [""] * len(g.rules)
+        for i, nm in enumerate(gc["names"]):
+            if nm.startswith('"'):
+                g.disp[i] = nm.strip('"')
+        if g.idents and all(x.startswith(old) for x in g.idents):
+            g.idents = None
+        for n in g.nodes:
+            if n["k"] == "state":
+                g.tags.add("state")
+        if any(gc["lr"]):
+            g.tags.add("lr")
+        g.maydiverge = False
+        # block ids are tied to the original group number: keep them (they are plain integers in the grammar text)
+        run = Run(pid, "quick", 0)
+        opts = [rec["options"]]
+        div, tot = run.execute([g], [rec["input"]], opts, lambda gg: [(0, 0)], [[f for f in rec["flags"] if f != "-support-left-recursion" and not f.startswith("G") and f != "-alternate-entrypoints"]],
+                               cmp=dict(ctx=(pid == "C02"), norm=("-optimize-grammar" in rec["flags"]), errs=("-optimize-grammar" not in rec["flags"])))
+        print("replayed 1 case: %d divergence(s) %s" % (len(div), [d["df"] for d in div]))
+        if div:
+            print("VIOLATION property=%s replay=%s" % (pid, path))
+            return 1
+        return 0
+    if pid == "C13" and "text" in rec:
+        import props
+        d = tempfile.mkdtemp(prefix="replay-", dir=P.workdir())
+        pth = os.path.join(d, "t.peg")
+        open(pth, "wb").write(bytes(rec["text"]))
+        p = subprocess.run([P.build_pigeon()] + rec["flags"] + [pth], stdout=subprocess.PIPE, stderr=subprocess.PIPE, env=P.ENV, timeout=120)
+        err = p.stderr.decode(errors="replace")
+        print("exit status %d, diagnostic class %s" % (p.returncode, props.classify_stderr(err)))
+        print(err[-600:])
+        bad = props.classify_stderr(err) == "panic" and "-no-recover" not in rec["flags"]
+        if bad:
+            print("VIOLATION property=C13 replay=%s" % path)
+        return 1 if bad else 0
+    print("replay files of %s describe the failing artifact; re-run ./check %s to re-evaluate it on the current tree" % (pid, pid))
+    print(json.dumps({k: rec[k] for k in list(rec)[:6]}, indent=1)[:1500])
+    return 2
 
 
 if __name__ == "__main__":
